@@ -1,3 +1,4 @@
 SPECIFICATION TraceSpec
 INVARIANTS OK_C16 OK_C06
 POSTCONDITION TraceAccepted
+VIEW TView
